@@ -408,7 +408,8 @@ def st_tables(max_models=3, max_chains=3, max_residues=5, max_atoms=8, altlocs=T
         origin = draw(st.sampled_from([(0.0, 0.0, 0.0), (0.0, 0.0, 0.0), (-939.0, 12.0, 500.0), (930.0, -960.0, -30.0)]))
         off = st.integers(-250, 250).map(lambda v: v / 1000.0)
         for m in range(1, nmodels + 1):
-            serial = draw(st.sampled_from([1, 1, 1, 7, 5000]))
+            # serial numbers over the whole 5-column range (5-digit serials fill the field next to the record name)
+            serial = draw(st.sampled_from([1, 1, 1, 7, 5000, 9990, 10000, 99000]))
             # every atom of a model sits in its own cell of a 1.5 A lattice (+-0.25 A offset):
             # no two atoms come closer than 1.0 A unless planted below
             n_slots = sum(len(names) for (_, _, _, _, _, names) in residues) * 3
